@@ -187,9 +187,15 @@ func checkC15(c *Ctx, r *Report) {
 func checkC19(c *Ctx, r *Report) {
 	r.Explanation = "Narrow clauses: in InitSegment.AddEmptyTrack the track id passed to CreateEmptyTrak and to CreateTrex is the same definition and depends on the number of existing tracks; " +
 		"mvhd.NextTrackID is stored on every path (unconditionally) from that id; the trak and the trex are both attached on every path; " +
-		"MdhdBox.SetLanguage overwrites (does not combine with the old value); the SetAACDescriptor arm that sets parametric stereo also sets SBR and the extension frequency; (FWD) when a function of the init-segment API forwards to a callee that has a parameter of the same name and type as one of its own parameters, the argument in that position depends on that parameter (no swapped / substituted flags); " +
+		"MdhdBox.SetLanguage overwrites (does not combine with the old value); the SetAACDescriptor arm that sets parametric stereo also sets SBR and the extension frequency; (FWD-SWAP) nowhere in the repository are two same-typed parameters passed crosswise to a callee whose parameters have the same two names; (FWD) when a function of the init-segment API forwards to a callee that has a parameter of the same name and type as one of its own parameters, the argument in that position depends on that parameter (no swapped / substituted flags); " +
 		"(O-ERR) errors from the descriptor builders are looked at on every path. Does not decide encode/decode equality of the built tree or golden-file equality."
 	ruleSetterOverwrites(c, r)
+	if n := ruleSwappedArgs(c, r, "FWD-SWAP", nil); n < 100 {
+		r.Undecided("FWD-SWAP", "scope", "", fmt.Sprintf("only %d same-typed parameter pairs forwarded", n))
+	} else {
+		r.OK("FWD-SWAP", "scope", "", fmt.Sprintf("%d pairs of same-typed, same-named parameters forwarded to callees in the repository: none crosswise", n))
+	}
+	requireFixture(r, "FWD-SWAP", "swappedForward", func(fc *Ctx, s *Report) { ruleSwappedArgs(fc, s, "FWD-SWAP", nil) })
 	ruleAscArms(c, r)
 	if f := c.ssaFunc(r, "DEP", "mp4", "InitSegment.AddEmptyTrack"); f != nil {
 		trak := callsIn(f, "mp4.CreateEmptyTrak", false)
